@@ -272,6 +272,7 @@ def batch(check: str, tier: str) -> int:
             "determinism_selftest": {"runs_repeated_in_other_process_and_hashseed": det_checked, "mismatches": det_mismatch, "mismatching_indices": det_bad[:10]},
             "known_findings_hit": sorted(fp for fp in violations if core.finding_for(check, fp)),
             "new_violation_fingerprints": sorted(fp for fp in violations if not core.finding_for(check, fp)),
+            "violating_runs_by_fingerprint": {fp: len(v) for fp, v in sorted(violations.items())},
             "harness_error_runs": harness_runs,
             "components": getattr(mod, "COMPONENTS", {}),
             "env": env_info,
